@@ -765,7 +765,7 @@ class SdvOfDdvWithValidatorMethodI(Interface):
 
 
 class PathSuffixI(Interface):
-    methods = {'value': Method(returns=Str)}
+    methods = {'value': Method(returns=Str, event='suffix-value')}
 
 
 class PurePathI(Interface):
@@ -846,7 +846,8 @@ M.contract(P_I + 'multi_phase.new_file:_DstFileNameSdvValidator.validate_pre_sds
                    lambda self, environment, trace:
                    resolutions(trace) == [('resolve-path', self._path_to_create, (environment.symbols,))]
                    and quiet(trace) and steps(trace) == [],
-               'an empty name is an error': lambda result, trace: True,
+               'a path without a file name (empty suffix) is an error': lambda result, trace:
+               outcome_event(trace, 'suffix-value')[1] != '' or result is not None,
            },
            raises={ArbitraryException: {'ensures': lambda exc, trace: outcome_event(trace, 'resolve-path') == ('raised', exc)}},
            raises_only=())
@@ -1696,7 +1697,8 @@ M.contract(P_I + 'assert_.existence_of_file:_Instruction.main',
                resolutions(trace)[0] == ('resolve-path', self._path_sdv, (environment.symbols,))
                and [e[2] for e in trace if e[0] == 'path-value'] == [(environment.tcds,)]
                and stats(trace) == [outcome_event(trace, 'path-value')[1].primitive]
-               and no_effect([e for e in trace if e[0] != 'matcher-apply']) and steps(trace)[:0] == [],
+               and no_effect([e for e in trace if e[0] != 'matcher-apply'])
+               and [x for x in steps(trace) if x[0] in VALIDATION_EVENTS] == [],
                'the file matcher is applied iff there is one and the path exists': lambda self, trace:
                len([e for e in trace if e[0] == 'matcher-apply'])
                == (0 if self._file_matcher is None or [e for e in trace if e[0] == 'stat:raised']
